@@ -60,7 +60,7 @@ func (r *ruleImpl) Execute(ctx heimdall.Context) (rule.Backend, error) {
 		// unescape path
 		request.URL.RawPath = ""
 	case config.EncodedSlashesOff:
-		if strings.Contains(request.URL.RawPath, "%2F") {
+		if containsEncodedSlash(request.URL.RawPath) {
 			return nil, errorchain.NewWithMessage(heimdall.ErrArgument,
 				"path contains encoded slash, which is not allowed")
 		}
@@ -152,6 +152,12 @@ type backend struct {
 }
 
 func (b *backend) URL() *url.URL { return b.targetURL }
+
+// containsEncodedSlash checks for both spellings of a percent-encoded slash. The hex digits of
+// percent-encoded octets are case-insensitive (RFC 3986, section 2.1).
+func containsEncodedSlash(path string) bool {
+	return strings.Contains(path, "%2F") || strings.Contains(path, "%2f")
+}
 
 func unescape(value string, handling config.EncodedSlashesHandling) string {
 	if handling == config.EncodedSlashesOn {
